@@ -263,6 +263,15 @@ class Run:
         if len(self.samples) < 6:
             self.samples.append(s)
 
+    def sample_line(self, path, idx=0, drop=()):
+        """safe sampling of one NDJSON record (a driver that crashed early may have produced fewer lines)"""
+        try:
+            lines = open(path).read().splitlines()
+            x = json.loads(lines[min(idx, len(lines) - 1)])
+            self.sample({k: v for k, v in x.items() if k not in drop})
+        except Exception:
+            pass
+
     def add(self, key, n=1):
         self.cov[key] = self.cov.get(key, 0) + n
 
